@@ -247,7 +247,7 @@ def programs(tname, nlab, maxbody, org=False):
     org=True: exactly one ORG to a LOWER address in the body, so that a label later in the source can lie below its reference"""
     T = TARGETS[tname]
     if org:
-        alpha = [('R', k, l) for k in getattr(T, 'refs_org', T.refs) for l in range(nlab)] + [('ODD',), ('NOP',), ('ORGLO',), ('GAP', T.gaps[-1])]
+        alpha = [('R', k, l) for k in getattr(T, 'refs_org', T.refs) for l in range(nlab)] + [('ODD',), ('NOP',), ('ORGLO',), ('GAP', T.gaps[0])]      # (a small gap: what follows the ORG must stay below the first block)
     else:
         alpha = [('R', k, l) for k in T.refs for l in range(nlab)] + [('ODD',), ('NOP',)] + [('GAP', g) for g in T.gaps]
     for m in range(1, maxbody + 1):
